@@ -25,6 +25,8 @@ impl SignedMessage {
 pub uninterp spec fn octets_of(o: OctetString) -> Bytes;
 impl OctetString { #[verifier::external_body] pub fn to_bytes(&self) -> (r: Bytes) ensures r == octets_of(*self) { unimplemented!() } }
 pub assume_specification [Error::custom] (s: &str) -> (r: Error);
+pub uninterp spec fn req_key(r: ProvisioningRequest) -> KeyIdentifier;
+pub assume_specification [ProvisioningRequest::key_identifier] (r: &ProvisioningRequest) -> (k: KeyIdentifier) ensures k == req_key(*r);
 pub assume_specification [Nonce::new] () -> (r: Nonce);
 
 /// a response is genuine for a signer identity: the CMS validates under that identity's key and the clear-text part
@@ -59,6 +61,7 @@ pub struct TrustAnchorSignerResponse { pub nonce: Nonce, pub objects: TrustAncho
 impl PartialEq for TrustAnchorObjects { fn eq(&self, _o: &Self) -> bool { unimplemented!() } } impl Eq for TrustAnchorObjects {}
 impl PartialEq for ChildResponses { fn eq(&self, _o: &Self) -> bool { unimplemented!() } } impl Eq for ChildResponses {}
 impl Error { pub fn custom(_s: &str) -> Error { unimplemented!() } }
+impl ProvisioningRequest { pub fn key_identifier(&self) -> KeyIdentifier { unimplemented!() } }
 impl Nonce { pub fn new() -> Self { unimplemented!() } }
 pub type TaNonce = Nonce;
 pub mod serde_json {
@@ -118,9 +121,10 @@ pub assume_specification<T: serde_json::VxJson> [serde_json::from_slice::<T>] (b
             ('event', 'r is Ok ==> r->Ok_0@ == seq![TrustAnchorProxyEvent::ChildResponseGiven(child_handle, key)]')]),
         U.fn(TP, 'TrustAnchorProxy', 'apply', trait='Aggregate', as_inherent=True,
              subst=[('event: Self::Event', 'event: TrustAnchorProxyEvent', 'R4')],
-             keep_arms={'TrustAnchorProxyEvent': ['RepositoryAdded', 'SignerAdded', 'SignerUpdated', 'SignerRequestMade', 'ChildResponseGiven']},
-             requires=[('km', km), ('kept_events_only', '!(event is SignerResponseReceived) && !(event is ChildAdded) && !(event is ChildRequestAdded)'),
-                       ('enabled', 'event is ChildResponseGiven ==> old(self).child_details@.contains_key(event->ChildResponseGiven_0)')],
+             keep_arms={'TrustAnchorProxyEvent': ['RepositoryAdded', 'SignerAdded', 'SignerUpdated', 'SignerRequestMade', 'ChildResponseGiven', 'ChildAdded', 'ChildRequestAdded']},
+             requires=[('km', km), ('kept_events_only', '!(event is SignerResponseReceived)'),
+                       ('enabled', 'event is ChildResponseGiven ==> old(self).child_details@.contains_key(event->ChildResponseGiven_0)'),
+                       ('enabled_request', 'event is ChildRequestAdded ==> old(self).child_details@.contains_key(event->ChildRequestAdded_0)')],
              ensures=[
                  ('signer_replaced_whole', 'event is SignerAdded ==> final(self).signer == Some(event->SignerAdded_0)'),
                  ('signer_updated_whole', 'event is SignerUpdated ==> final(self).signer == Some(event->SignerUpdated_0)'),
@@ -128,6 +132,12 @@ pub assume_specification<T: serde_json::VxJson> [serde_json::from_slice::<T>] (b
                  ('response_given_once', '''event is ChildResponseGiven ==> final(self).child_details@.contains_key(event->ChildResponseGiven_0)
                     && final(self).child_details@[event->ChildResponseGiven_0].open_responses@
                         == old(self).child_details@[event->ChildResponseGiven_0].open_responses@.remove(event->ChildResponseGiven_1)'''),
+                 ('child_added_under_its_handle', '''event is ChildAdded ==> final(self).child_details@ == old(self).child_details@.insert(event->ChildAdded_0.handle, event->ChildAdded_0)'''),
+                 ('request_filed_under_the_requesting_child_and_its_key', '''event is ChildRequestAdded ==> final(self).child_details@.contains_key(event->ChildRequestAdded_0)
+                    && final(self).child_details@[event->ChildRequestAdded_0].open_requests@
+                        == old(self).child_details@[event->ChildRequestAdded_0].open_requests@.insert(req_key(event->ChildRequestAdded_1), event->ChildRequestAdded_1)
+                    && final(self).child_details@[event->ChildRequestAdded_0].open_responses@ == old(self).child_details@[event->ChildRequestAdded_0].open_responses@
+                    && (forall |c: ChildHandle| c != event->ChildRequestAdded_0 && #[trigger] old(self).child_details@.contains_key(c) ==> final(self).child_details@.contains_key(c) && final(self).child_details@[c] == old(self).child_details@[c])'''),
                  ('open_request_untouched', '!(event is SignerRequestMade) ==> final(self).open_signer_request == old(self).open_signer_request'),
              ]),
     ])
